@@ -222,6 +222,12 @@ class DataFrame:
         return DataFrame(cols={c: [vs[i] for i in order] for c, vs in self.cols.items()},
                          index=[self.index[i] for i in order])
 
+    def filter(self, items=None, like=None, regex=None, axis=None):
+        import re
+        keep = [c for c in self.cols if (items is not None and c in items) or (like is not None and like in str(c)) or
+                (regex is not None and re.search(regex, str(c)))]
+        return DataFrame(cols={c: self.cols[c] for c in keep}, index=self.index)
+
     def head(self, n=5):
         return self.iloc[list(range(min(n, len(self.index))))]
 
